@@ -49,6 +49,12 @@ def setback_leg(c, quick, rng, wd):
     cfg = mc_cfg('MCConfigsSetBack', threads=2, maxnow=3 if quick else 4, hits=3)
     cfg['next_'] = 'NextSetBack'
     c.mc('MC_Limiter', cfg, label='clock set back, 2 threads', must_cover=['SetBack', 'Reserve', 'Collect'])
+    if not quick:
+        for th, mn, h in ((3, 3, 4), (2, 5, 4)):       # 1.8 M and 1.2 M states, about 10 s each
+            cfg = mc_cfg('MCConfigsSetBack', threads=th, maxnow=mn, hits=h)
+            cfg['next_'] = 'NextSetBack'
+            c.mc('MC_Limiter', cfg, label='clock set back, %d threads, clock 1..%d, %d hits' % (th, mn, h),
+                 must_cover=['SetBack'])
     cfg = mc_cfg('MCConfigsSetBack', threads=1, maxnow=4, hits=4)
     cfg['next_'] = 'NextSetBack'
     r = c.mc('MC_Limiter', cfg, label='clock set back, sequential graph for replay', dump=True, coverage=False)
